@@ -103,6 +103,23 @@ example : GenTable.dataLowerIdx (fun (x : Nat) => decide (5 ≤ x)) [1, 3, 5, 7,
     GenTable.dataLowerIdx (fun (x : Nat) => decide (10 ≤ x)) [1, 3, 5, 7, 9] = none ∧
     GenTable.indexLowerIdx (fun (x : Nat) => decide (0 ≤ x)) ([] : List Nat) = none := by decide
 
+/-- the code of `table.Build` that lays out the file (the index loop, translated on every run): the handle stored in the index
+    entry of block `i` cuts exactly the encoding of block `i` out of the data region, and the entry's start and end keys are
+    the first and the last key of that block — what `Index.LowerBound` (end keys) and `lm.fetch` (handle) rely on; the
+    seeded change C05-k stored another end key -/
+theorem C10_code_index_layout {α κ β : Type} (encData : List α → List β) (keyOf : α → κ) (dflt : α) (bs : List (List α)) :
+    ∃ ix, GenTable.buildIndex encData keyOf dflt bs = some (ix, (0, (bs.flatMap encData).length), bs.flatMap encData) ∧
+      ix.length = bs.length ∧
+      ∀ i (hi : i < bs.length), ∃ e, ix[i]? = some e ∧ e.1 = keyOf (bs[i].headD dflt) ∧ e.2.1 = keyOf (bs[i].getLastD dflt) ∧
+        ((bs.flatMap encData).drop e.2.2.1).take e.2.2.2 = encData bs[i] := by
+  refine ⟨_, TableTie.buildIndex_eq encData keyOf dflt bs, ?_, ?_⟩
+  · generalize (0 : Nat) = off
+    induction bs generalizing off with
+    | nil => rfl
+    | cons b bs ih => simp [TableTie.ixFrom, ih]
+  · intro i hi
+    simpa using TableTie.ixFrom_cuts encData keyOf dflt [] bs i hi
+
 #print axioms C10_table
 #print axioms C10_lookup_newest
 #print axioms C10_lookup_unique
@@ -110,4 +127,5 @@ example : GenTable.dataLowerIdx (fun (x : Nat) => decide (5 ≤ x)) [1, 3, 5, 7,
 #print axioms C10_code_search_fold
 #print axioms C10_code_table
 #print axioms C10_code_build_and_search
+#print axioms C10_code_index_layout
 end Props
